@@ -32,9 +32,9 @@ theorem x16_step (r : Routine) (k b : Nat) (hs : Slice r k (ladX16Code b))
     (hrk : rk.length = 32) (hrkb : ∀ x ∈ rk, x < 2 ^ 32) (hjb : jb.length = 16) (hjbb : ∀ x ∈ jb, x < 2 ^ 8) (hsb : ∀ x ∈ src, x < 2 ^ 8)
     (hsp : sp + src.length < 2 ^ 63) (hdb : dbase + dlen < 2 ^ 63) (hsl : src.length ≤ dlen)
     (toff h hf c y : Nat) (dc tc : List Nat) (s : State) (hhf : hf < 2 ^ 63)
-    (st : LadSt M2 dbase dlen tp sp toff (Wblk jb 0) h hf src.length 4 c y dc tc s) (hlen : 16 * c + 256 ≤ src.length) :
+    (st : LadSt M2 dbase dlen tp sp toff (Wblk jb 0) h hf src 4 c y dc tc s) (hlen : 16 * c + 256 ≤ src.length) :
     ∃ s' N, N ≤ 700 ∧ Reach r k s k s' N ∧
-      LadSt M2 dbase dlen tp sp toff (Wblk jb 0) h hf src.length 4 (c + 16)
+      LadSt M2 dbase dlen tp sp toff (Wblk jb 0) h hf src 4 (c + 16)
         (if hf = 0 then y else ghN4 h 4 y (xorN ((src.drop (16 * c)).take 256) (ksN rk jb c 16)))
         (spliceAt dc (16 * c) (xorN ((src.drop (16 * c)).take 256) (ksN rk jb c 16))) tc s' ∧
       KeepsM ladKeepG ladKeepV (List.range 8) s s' := by
@@ -59,7 +59,7 @@ theorem x16_step (r : Routine) (k b : Nat) (hs : Slice r k (ladX16Code b))
   have pc0 : PCtx s0 := st.pc.of_keepsM k0 (by decide)
   -- fill, kernel, xor, store
   obtain ⟨s1, hr1, m1, regs1, ctr1, g15, k1⟩ := x16A_spec s0 pc0 rk jb src hrk hrkb hjb hjbb hsb (fun d => M2 d tc) dbase dlen sp
-    (lm.m2.bufD tc st.htc) (fun d hd => lm.src d tc hd st.htc) (fun d i hd hi => lm.rk d tc i hd st.htc hi) dc st.hdc st.mem c st.ctr st.rkp
+    (lm.m2.bufD tc st.htc) (fun d i hd hi => lm.rk d tc i hd st.htc hi) dc st.hdc st.mem c (st.srcOK tc st.htc) st.ctr st.rkp
     st.g10 st.g13 hlen (by omega) hsp hdb
   have r1 : Reach r (k + 2) s0 (k + 2 + 560) s1 560 := by
     have := reach_seg sA x16A_nc hr1; rw [x16A_len] at this; exact this
@@ -123,7 +123,7 @@ theorem x16_step (r : Routine) (k b : Nat) (hs : Slice r k (ladX16Code b))
   have hm4 : s4.mem = M2 (spliceAt dc (16 * c) (xorN ((src.drop (16 * c)).take 256) (ksN rk jb c 16))) tc := by
     rw [k4.mem, m3]; exact m1
   refine ⟨st.pc.of_keepsM kA pRegs_lad, st.gh.of_keepsM kA ghRegs_lad, (kA.g 15 (by decide)).trans st.rkp, (kA.g 0 (by decide)).trans st.g0,
-    ?_, ?_, ?_, (kA.g 6 (by decide)).trans st.g6, ?_, ?_, ?_, hm4, ?_, st.htc⟩
+    ?_, ?_, ?_, (kA.g 6 (by decide)).trans st.g6, ?_, ?_, ?_, hm4, ?_, st.htc, ?_⟩
   · rw [g9]; omega
   · rw [g10]; omega
   · rw [g13]; omega
@@ -132,5 +132,8 @@ theorem x16_step (r : Routine) (k b : Nat) (hs : Slice r k (ladX16Code b))
   · rw [k4.v 21 (by decide)]; exact y3
   · rw [← y3]; exact lt3
   · rw [spliceAt_length _ _ _ (by rw [xorN_length, ksN_length, List.length_take, List.length_drop, st.hdc]; omega)]; exact st.hdc
+  · intro t ht
+    exact (lm.adv dc t (16 * c) 256 _ st.hdc ht (by rw [xorN_length, ksN_length, List.length_take, List.length_drop]; omega) (by omega)
+      (st.srcOK t ht)).mono _ (by omega)
 
 end SMGo.Proofs.ISAVal
